@@ -66,7 +66,7 @@ struct WorldSO : World, Net {
   // relay mode results (real smtpd + queue)
   struct Q { std::string sender; std::vector<std::string> rcpts; std::string body; }; std::vector<Q> queued;
   // zone
-  struct Zone { std::map<std::string, std::vector<std::pair<int, std::string>>> mx; std::map<std::string, std::vector<uint32_t>> a; std::map<std::string, std::string> fail; } zone;
+  struct Zone { std::map<std::string, std::vector<std::pair<int, std::string>>> mx; std::map<std::string, std::vector<uint32_t>> a; std::map<std::string, std::string> fail; int mixed = 0; } zone;
 
   std::map<std::string, int> query_count;
   // ---- resolver: wire-format answers
@@ -102,7 +102,11 @@ struct WorldSO : World, Net {
       pkt = g; return 0;
     }
     std::string ans; int n = 0;
-    auto rr = [&](int ty, const std::string &rdata) { put_name(ans, name); ans.push_back((char)(ty >> 8)); ans.push_back((char)ty); ans.push_back(0); ans.push_back(1); ans.append(4, '\0'); ans.push_back((char)(rdata.size() >> 8)); ans.push_back((char)rdata.size()); ans += rdata; n++; };
+    // zone.mixed: records of other types among the wanted ones in the answer section (a CNAME in front of the addresses it leads to, a
+    // signature record, a text record) - legal, and to be skipped by their stated length. 1 = before each wanted record, 2 = after, 3 = both
+    auto foreign = [&](int which) { std::string rd; int ty; if (which % 3 == 0) { ty = 5; put_name(rd, "alias.r.example"); } else if (which % 3 == 1) { ty = 16; rd = std::string("\x0bhello world", 12); } else { ty = 46; rd = std::string(27, '\x5a'); }
+      put_name(ans, name); ans.push_back((char)(ty >> 8)); ans.push_back((char)ty); ans.push_back(0); ans.push_back(1); ans.append(4, '\0'); ans.push_back((char)(rd.size() >> 8)); ans.push_back((char)rd.size()); ans += rd; n++; };
+    auto rr = [&](int ty, const std::string &rdata) { if (zone.mixed & 1) foreign(n); put_name(ans, name); ans.push_back((char)(ty >> 8)); ans.push_back((char)ty); ans.push_back(0); ans.push_back(1); ans.append(4, '\0'); ans.push_back((char)(rdata.size() >> 8)); ans.push_back((char)rdata.size()); ans += rdata; n++; if (zone.mixed & 2) foreign(n + 1); };
     if (type == T_MX) { auto it = zone.mx.find(name); if (it != zone.mx.end()) for (auto &m : it->second) { std::string rd; rd.push_back((char)(m.first >> 8)); rd.push_back((char)m.first); put_name(rd, m.second); rr(T_MX, rd); } }
     else if (type == T_A) { auto it = zone.a.find(name); if (it != zone.a.end()) for (auto ip : it->second) { std::string rd; rd.push_back((char)(ip >> 24)); rd.push_back((char)(ip >> 16)); rd.push_back((char)(ip >> 8)); rd.push_back((char)ip); rr(T_A, rd); } }
     bool known = zone.mx.count(name) || zone.a.count(name);
@@ -205,6 +209,7 @@ struct WorldSO : World, Net {
     for (auto &p : z["mx"].o) for (auto &m : p.second.a) zone.mx[p.first].push_back({(int)m.a[0].i(), m.a[1].str()});
     for (auto &p : z["a"].o) for (auto &m : p.second.a) zone.a[p.first].push_back((uint32_t)m.i());
     for (auto &p : z["fail"].o) zone.fail[p.first] = p.second.str();
+    zone.mixed = (int)z.geti("mixed", 0);
     if (!kn.has("zone")) { zone.a[host].push_back(0x0a010101); }
     for (auto &p : kn["hosts"].o) { HostAct h; h.kind = p.second.gets("kind", "accept"); h.delay = p.second.geti("delay", 0); h.immediate = p.second.getb("immediate", false); if (p.second.has("greeting")) { h.has_greeting = true; h.greeting = reply_from(p.second["greeting"], 220); } hosts[(uint32_t)strtoul(p.first.c_str(), 0, 10)] = h; }
     if (!kn.has("hosts")) hosts[0x0a010101] = HostAct();
